@@ -7,7 +7,7 @@ VROOT = os.path.dirname(os.path.dirname(os.path.abspath(__file__)))
 REPO = os.environ.get("VERIF_REPO", "/repo")
 import concurrent.futures as cf
 args = sys.argv[1:]
-patch, ids = args[0], args[1:] or ["C%02d" % i for i in range(1, 21)]
+patch, ids = os.path.abspath(args[0]), args[1:] or ["C%02d" % i for i in range(1, 21)]
 st = subprocess.run(["git", "-C", REPO, "status", "--porcelain", "--untracked-files=no"], capture_output=True, text=True).stdout
 if st.strip():
     print(REPO, "is not clean:", st); sys.exit(2)
